@@ -46,7 +46,7 @@ CHECKS.update({
 
 CHECKS.update({
  "C11": dict(cat="exploration", tech="differential property testing (proptest + exhaustive per-cell enumeration): AIR constraint evaluation on hand-built rows vs the defining relation over the true extension field",
-   text="For every ALU kind (incl. packed Horner k=2..4), Const/Public/Recompose tables and seven Poseidon1/2 table shapes, over 10 field/extension configurations and lanes 1-4, tables are built cell by cell from the documented layouts (valid, one cell perturbed, fully random); the set of rows flagged by the constraint evaluator must equal the set of rows whose relation fails. Every (operand, coefficient) cell is perturbed once per (kind, configuration, lanes, k). Two cooperating cells are also perturbed together (scalar and extension-field pairs, multipliers taken from neighbouring cells; enumerated for Horner rows).",
+   text="For every ALU kind (incl. packed Horner k=2..6), Const/Public/Recompose tables and seven Poseidon1/2 table shapes, over 10 field/extension configurations and lanes 1-4, tables are built cell by cell from the documented layouts (valid, one cell perturbed, fully random); the set of rows flagged by the constraint evaluator must equal the set of rows whose relation fails. Every (operand, coefficient) cell is perturbed once per (kind, configuration, lanes, k). Two cooperating cells are also perturbed together (scalar and extension-field pairs, multipliers taken from neighbouring cells; enumerated for Horner rows).",
    note="Trusted: p3-field extension arithmetic, native permutations, DebugConstraintBuilder evaluation. Bus (cross-table) effects are C04/C09's subject.", ref="DESIGN.md §3 C11", engine="E4"),
  "C13": dict(cat="exploration", tech="differential property testing (proptest): random symbolic constraint DAGs / generated-program AIRs compiled to circuits vs reference evaluator and the native p3 constraint folder",
    text="Random symbolic DAGs (all leaf kinds, Arc sharing, base/extension, depth up to 10^4) are compiled with the repo's symbolic compiler and compared node by node with a reference evaluator; generated-program AIRs and the repo's own AIRs go through eval_folded_circuit and are compared with VerifierConstraintFolderWithLookups on the same openings, alpha, selectors and lookup challenges. 1.16M evaluations per quick run. ProgramAir includes extension assertions made only of lifted base expressions (several per program).",
